@@ -1917,6 +1917,12 @@ def seq_length(it):
         return it.length
     if isinstance(it, EnumerateValue):
         return seq_length(it.inner)
+    if isinstance(it, ZipValue):
+        ls = [seq_length(x) for x in it.inners]
+        r = ls[0]
+        for x in ls[1:]:
+            r = smin(r, x)
+        return r
     if hasattr(it, 'length'):
         return it.length
     if isinstance(it, SObj) and it.cls is not None:
@@ -1939,6 +1945,8 @@ def seq_at(it, k, checked=True):
         return it.at(k)
     if isinstance(it, EnumerateValue):
         return (it.start + k, seq_at(it.inner, k))
+    if isinstance(it, ZipValue):
+        return tuple(seq_at(x, k) for x in it.inners)
     if isinstance(it, (list, tuple)):
         c = conc_int(k)
         if c is not None:
